@@ -124,7 +124,8 @@ func (s RestartScn) ID() string {
 
 var CrashPoints = append([]string{"startup.listed", "startup.before_first_send"}, Points...)
 
-func appPut(x *inst.Inst, s *sched.Sched, key, val string) {
+func AppPut(x *inst.Inst, s *sched.Sched, key, val string) {
+	s.Note(x.Name, "APP BEGIN "+key)
 	id, _ := lmdbx.Update(x.Env, func(txn *lmdb.Txn) error {
 		if x.Opt.Native {
 			return inst.NativePut(txn, "d", []byte(key), uint64(time.Now().UnixNano()), false, []byte(val))
@@ -151,7 +152,7 @@ func RunRestart(scn RestartScn, env *runner.Env, res *runner.Result) {
 	}
 	defer func() { a.Close() }()
 	for i := 0; i < 4; i++ {
-		appPut(a, s, fmt.Sprintf("a-key-%d", i), "v0")
+		AppPut(a, s, fmt.Sprintf("a-key-%d", i), "v0")
 	}
 	var bInst *inst.Inst
 	var bLoop *sched.Loop
@@ -162,7 +163,7 @@ func RunRestart(scn RestartScn, env *runner.Env, res *runner.Result) {
 			return
 		}
 		defer bInst.Close()
-		appPut(bInst, s, "b-key", "vb")
+		AppPut(bInst, s, "b-key", "vb")
 		bLoop = sched.Start(bInst, s)
 		defer bLoop.Stop(5 * time.Second)
 	}
@@ -174,8 +175,8 @@ func RunRestart(scn RestartScn, env *runner.Env, res *runner.Result) {
 		return
 	}
 	// some history
-	appPut(a, s, "a-key-1", "v1")
-	appPut(a, s, "a-late", "v1")
+	AppPut(a, s, "a-key-1", "v1")
+	AppPut(a, s, "a-late", "v1")
 	if ok, why := loopA.WaitQuiescent(nil, 3, wd); !ok {
 		loopA.Stop(5 * time.Second)
 		res.Verdict, res.Msg = runner.Inconclusive, "A phase 1: "+why
@@ -183,7 +184,7 @@ func RunRestart(scn RestartScn, env *runner.Env, res *runner.Result) {
 	}
 	// ---- crash at the armed point; activity that reaches it
 	arm := s.ArmAt("a", scn.CrashPoint, scn.CrashNth, sched.Crash)
-	appPut(a, s, "a-key-2", "v2-before-crash")
+	AppPut(a, s, "a-key-2", "v2-before-crash")
 	// a remote snapshot so that load.* points are reached
 	rs := &wire.Snap{FormatVersion: 3, CompatVersion: 1, Meta: wire.Meta{DatabaseName: dbName, InstanceID: "r", GenerationID: "GX", TimestampNano: uint64(time.Now().UnixNano())},
 		DBIs: []wire.DBI{{Name: "d", Entries: []wire.KV{{Key: []byte("r-key"), Val: []byte("vr"), TS: uint64(time.Now().UnixNano())}}}}}
@@ -245,8 +246,8 @@ func RunRestart(scn RestartScn, env *runner.Env, res *runner.Result) {
 	defer atomic.StoreInt32(&gateOpen, 1)
 	wrote := false
 	doWrite := func() {
-		appPut(a, s, "a-after-restart", "new")
-		appPut(a, s, "a-key-0", "after-restart")
+		AppPut(a, s, "a-after-restart", "new")
+		AppPut(a, s, "a-key-0", "after-restart")
 		wrote = true
 	}
 	switch scn.WriteAt {
@@ -390,7 +391,7 @@ func RunFleet(scn FleetScn, env *runner.Env, res *runner.Result) {
 			return
 		}
 		defer x.Close()
-		appPut(x, s, fmt.Sprintf("init-%d", i), "v")
+		AppPut(x, s, fmt.Sprintf("init-%d", i), "v")
 		insts = append(insts, x)
 	}
 	for _, x := range insts {
@@ -401,7 +402,7 @@ func RunFleet(scn FleetScn, env *runner.Env, res *runner.Result) {
 	// application writes, monotone per key per instance
 	for w := 0; w < scn.Writes; w++ {
 		x := insts[r.Intn(len(insts))]
-		appPut(x, s, fmt.Sprintf("k%d-%s", r.Intn(4), x.Name), fmt.Sprintf("w%d", w))
+		AppPut(x, s, fmt.Sprintf("k%d-%s", r.Intn(4), x.Name), fmt.Sprintf("w%d", w))
 		time.Sleep(time.Duration(r.Intn(1500)) * time.Microsecond)
 	}
 	// faults stop; everything must settle
@@ -628,7 +629,7 @@ func RunCleanForced(scn CleanScn, env *runner.Env, res *runner.Result) {
 		case "loop.end":
 			runCleaner()
 			if atomic.LoadInt32(&loadedX) == 1 && s.Count("a", "loop.end", 0) >= 2 && atomic.CompareAndSwapInt32(&wrote, 0, 1) {
-				appPut(a, s, "local", "v")
+				AppPut(a, s, "local", "v")
 			}
 		case "send.before_store", "send.after_store", "loop.top", "load.before_txn", "send.before_txn":
 			runCleaner()
